@@ -24,7 +24,7 @@ import gqlref
 import isogen
 import runner
 import ts_types
-from ts_types import gql_named, gql_sig, object_variants, split_null, wrapper_sig
+from ts_types import gql_named, gql_sig, object_variants, wrapper_sig
 
 LEVEL = "exploration"
 RULE = ("seeded isogen projects (profiles core, names, plain, text; variants: nested list field types [[T]], [[T!]]!, [[T]!]; "
